@@ -648,13 +648,15 @@ class CCA(CCABaseModel):
         """
         view_preprocessed = []
         for i, view in enumerate(views):
-            view_preprocessed = self.preprocessors[i].transform(view)
+            view_preprocessed.append(self.preprocessors[i].transform(view))
 
         transformed_views = self._transform(view_preprocessed)
 
         unstacked_transformed_views = []
         for i, view in enumerate(transformed_views):
-            unstacked_view = self.preprocessors[i].inverse_transform_scores(view)
+            unstacked_view = self.preprocessors[i].inverse_transform_scores_unseen(
+                view
+            )
             unstacked_transformed_views.append(unstacked_view)
         return unstacked_transformed_views
 
